@@ -11,6 +11,7 @@ import (
 	"github.com/bbva/qed/consensus"
 	"github.com/bbva/qed/crypto/hashing"
 	"github.com/bbva/qed/protocol"
+	"github.com/bbva/qed/storage"
 	"github.com/bbva/qed/storage/rocks"
 	"github.com/hashicorp/raft"
 	"qedverif/cq"
@@ -104,6 +105,15 @@ func transferCmd(out *cq.Out, seed uint64, tier string) {
 		}
 		hist = append(hist, "raft snapshot + log truncation on the live nodes")
 		add(rng.Intn(3))
+		var fl *failLoadStore
+		if sc%3 == 2 || sc == 0 {
+			// the first transfer attempt breaks mid-stream: the follower must not count it as installed; raft tries again
+			c.wrap = map[int]func(storage.ManagedStore) storage.ManagedStore{f: func(st storage.ManagedStore) storage.ManagedStore {
+				fl = &failLoadStore{ManagedStore: st}
+				return fl
+			}}
+			hist = append(hist, "the follower's first state-transfer stream will break")
+		}
 		if err := c.start(f, false); err != nil {
 			out.Violate("C09:follower-cannot-rejoin", fmt.Sprintf("the follower could not be restarted after compaction: %v", err), desc)
 			c.stopAll()
